@@ -33,6 +33,28 @@ def exact_length_rule(F, G, rep):
     return R
 
 
+def error_discipline_rule(F, G, rep):
+    """a short stream surfaces as the Err of an exact-length read; between that read and the public readers no construct
+    may discard it (`.ok()`, `flat_map`/`flatten` over Results, `if let Ok`, `let _ =` ...)"""
+    import errdrop
+    inv = errdrop.Inventory(F, G)
+    R = G.reachable(SLP_ENTRIES + ["io::peppi::de::read"])
+    is_read = lambda c: c.startswith("byteorder::ReadBytesExt::read_") or c in ("std::io::Read::read_exact", "std::io::Read::read")
+    readers = set(o for o in G.local if any(is_read(t.get("fn") or "") for _, _, t in G.calls(o)))
+    n = 0
+    for b in F.fn_bodies():
+        if b["path"] not in R:
+            continue
+        for st in inv.sites(b):
+            n += 1
+            cone = inv.cone(st["operand"])
+            bad = sorted(c for c in cone if c in readers or is_read(c))
+            rep.ob("W.read-error-dropped", not bad, st["fn"], errdrop.site_key(st).split("|", 1)[1],
+                   "%s discards the error of a value computed through a stream read (%s): a truncated stream would be accepted" % (st["what"], ", ".join(reach.short(x) for x in bad[:3])), st["sp"])
+    rep.counts["error_drop_sites_in_readers"] = n
+    rep.floor("functions performing exact-length reads", len(readers), 20)
+
+
 def terminator_rule(F, G, rep):
     b = F.body(SLP_READ)
     val = L.strip_try(b["tir"]["value"])
@@ -144,6 +166,10 @@ def slpp_rule(F, G, rep):
 def run(F, rep, tier):
     G = reach.Graph(F)
     exact_length_rule(F, G, rep)
+    error_discipline_rule(F, G, rep)
+    # a bounded or buffered adapter over the stream changes where end-of-stream is seen
+    import streamid
+    streamid.slp_rule(F, rep, 'W.stream')
     terminator_rule(F, G, rep)
     slpp_rule(F, G, rep)
     # "never a panic": the reader's panic inventory (shared with C06) — a cut moves the stream end, not the code paths
